@@ -60,8 +60,23 @@ def case_of_line(trace_lines, line):
     return case, trace_lines[start:line]
 
 
-def run_iour(run, tier, focus, replay=None):
-    for m in ("OpAbs", "IourDriver", "MC_IourDriver", "Gen_IourDriver", "Trace_OpAbs"):
+DRIVERS = {
+    "iour": {"model": "IourDriver", "quick": ["sm", "sb"], "thorough": ["sm", "sb", "ss2", "smb"],
+             "optional_actions": ("PushBlocking", "PoolRun", "KMore", "DropChan"),
+             "live": {"C02": "live_c02", "C05": "live_c05"},
+             "controls": {"C01": [("olddrain", "Safe")], "C05": [("live_oldcancel", "CancelPrompt")]},
+             "gen": ["Gen_IourDriver.cfg"]},
+    "poll": {"model": "PollDriver", "quick": ["sss"], "thorough": ["sss", "ssb"],
+             "optional_actions": ("PushBlocking", "PoolRun", "DropChan"),
+             "live": {"C02": "live_c02", "C05": "live_c05"},
+             "controls": {},
+             "gen": ["Gen_PollDriver.cfg", "Gen_PollDriver_sss.cfg"]},
+}
+
+
+def run_driver(run, tier, focus, drv, replay=None):
+    D = DRIVERS[drv]
+    for m in ("OpAbs", D["model"], "MC_" + D["model"], "Gen_" + D["model"], "Trace_OpAbs"):
         vlib.sany(m)
     tmp = vlib.scratch()
     try:
@@ -74,19 +89,27 @@ def run_iour(run, tier, focus, replay=None):
             ncases = 1
         else:
             # 1. exhaustive model checking
-            cfgs = ["sm", "sb"] if tier == "quick" else ["sm", "sb", "ss2", "smb"]
+            M = D["model"]
+            cfgs = D["quick"] if tier == "quick" else D["thorough"]
             for c in cfgs:
-                r = vlib.tlc("MC_IourDriver", "MC_IourDriver_%s.cfg" % c, timeout=3000)
-                vlib.require_model_ok(r, "IourDriver/" + c)
-                z = [a for a in vlib.zero_actions(r) if a not in ("PushBlocking", "PoolRun", "KMore", "DropChan") or c == "smb"]
+                r = vlib.tlc("MC_" + M, "MC_%s_%s.cfg" % (M, c), timeout=3000)
+                vlib.require_model_ok(r, M + "/" + c)
+                z = [a for a in vlib.zero_actions(r) if a not in D["optional_actions"]]
                 if z:
-                    raise vlib.ToolError("IourDriver/%s: actions never taken: %s" % (c, z))
-                run.add_model("IourDriver+OpAbs/" + c, r)
-            # control: the repaired Driver::drop defect, switched back on, must violate the monitor
-            r = vlib.tlc("MC_IourDriver", "MC_IourDriver_olddrain.cfg", timeout=600, coverage=False)
-            if r.violated != "Safe":
-                raise vlib.ToolError("control run (old Driver::drop) should violate Safe, got %s / %s" % (r.violated, r.error))
-            run.note("control_old_drop_violates_monitor", True)
+                    raise vlib.ToolError("%s/%s: actions never taken: %s" % (M, c, z))
+                run.add_model(M + "+OpAbs/" + c, r)
+            # liveness of the design (fair spec, no state constraint) for the property in focus
+            live = D["live"].get(focus)
+            if live:
+                r = vlib.tlc("MC_" + M, "MC_%s_%s.cfg" % (M, live), timeout=3000, coverage=False)
+                vlib.require_model_ok(r, M + "/" + live)
+                run.add_model(M + "/liveness/" + live, r)
+            # controls: a repaired defect switched back on must be caught by the model check
+            for cfg, expect in D["controls"].get(focus, []):
+                r = vlib.tlc("MC_" + M, "MC_%s_%s.cfg" % (M, cfg), timeout=900, coverage=False)
+                if r.violated != expect:
+                    raise vlib.ToolError("control run %s should violate %s, got %s / %s" % (cfg, expect, r.violated, r.error))
+                run.note("control_%s_%s" % (drv, cfg), "violates %s as expected" % expect)
             # 2. schedules
             n = 0
             nsim = 350 if tier == "quick" else 4000
@@ -98,10 +121,13 @@ def run_iour(run, tier, focus, replay=None):
                         run.sample({"schedule": [(s["act"], s["op"]) for s in o["steps"]],
                                     "expected_events_first_steps": [s["evs"] for s in o["steps"][:3]]}, limit=3)
                     f.write(json.dumps(o) + "\n")
-                g = vlib.tlc("Gen_IourDriver", "Gen_IourDriver.cfg", timeout=1500, coverage=False, sink=sink,
-                             simulate=nsim, depth=26)
-            if g.error or g.violated or n == 0:
-                raise vlib.ToolError("Gen_IourDriver: %s %s n=%d\n%s" % (g.error, g.violated, n, g.out[-2000:]))
+                for gi, gcfg in enumerate(D["gen"]):
+                    g = vlib.tlc("Gen_" + M, gcfg, timeout=1500, coverage=False, sink=sink,
+                                 simulate=max(1, nsim // len(D["gen"])), depth=26, seed_=vlib.seed() + gi)
+                    if g.error or g.violated:
+                        raise vlib.ToolError("Gen_%s: %s %s\n%s" % (M, g.error, g.violated, g.out[-2000:]))
+            if n == 0:
+                raise vlib.ToolError("Gen_%s printed no behaviours" % M)
             ncases = n
         # 3. replay on the real driver
         vlib.cargo_build("hdrv", ["drv_replay"])
@@ -124,7 +150,7 @@ def run_iour(run, tier, focus, replay=None):
                 d = detail.get((p["type"], json.dumps(p["sig"], sort_keys=True)), {})
                 if p["type"] == "mismatch":
                     drift += p["count"]
-                    vlib.log("DRIFT (iour %s): %d behaviours where driver events differ from the model: %s" %
+                    vlib.log("DRIFT (" + drv + " %s): %d behaviours where driver events differ from the model: %s" %
                              (mode, p["count"], d.get("desc", "")[:400]))
                 elif p["type"] == "hang":
                     what = p["sig"].get("what", "")
@@ -138,25 +164,25 @@ def run_iour(run, tier, focus, replay=None):
                 elif p["type"] == "panic":
                     # a panic of the driver during a replayed schedule: belongs to whichever property is being checked
                     run.report(p["sig"], d.get("desc", ""), d.get("case"))
-        run.note("drift_behaviours", drift)
-        run.note("behaviours_replayed", ncases)
+        run.note(drv + "_drift_behaviours", drift)
+        run.note(drv + "_behaviours_replayed", ncases)
         run.add_traces(results["exact"][0]["cases"] + results["settle"][0]["cases"])
-        run.note("hook_events_validated", results["exact"][0]["trace_events"] + results["settle"][0]["trace_events"])
+        run.note(drv + "_hook_events_validated", results["exact"][0]["trace_events"] + results["settle"][0]["trace_events"])
         # 4. trace validation against the contract monitor
         allcases = [json.loads(l) for l in open(cases_path)]
         for mode, (summ, probs, tr) in results.items():
             viol, r = validate(tr)
-            run.add_model("Trace_OpAbs/" + mode, r)
+            run.add_model("Trace_OpAbs/" + drv + "/" + mode, r)
             tl = [json.loads(l) for l in open(tr)]
             for (line, kind, op) in viol:
                 prop = KIND2PROP.get(kind, "C01")
                 case, evs = case_of_line(tl, line)
-                desc = "driver=io_uring %s: contract monitor: %s for %s at trace line %d; last events: %s" % (
+                desc = "driver=" + drv + " %s: contract monitor: %s for %s at trace line %d; last events: %s" % (
                     mode, kind, op, line, [(e["ev"], e["op"], e["a"]) for e in evs[-8:]])
                 rep = {"case": allcases[case] if case is not None and case < len(allcases) else None,
                        "events": evs[-40:]}
                 if prop == focus:
-                    run.report({"site": "iour", "monitor": kind}, desc, rep)
+                    run.report({"site": drv, "monitor": kind}, desc, rep)
                 else:
                     vlib.log("NOTE: %s finding (reported by ./check %s): %s" % (prop, prop, desc[:300]))
         # 5. negative control: move one free in front of the completion it waits for
@@ -165,7 +191,7 @@ def run_iour(run, tier, focus, replay=None):
             tl = [json.loads(l) for l in open(tr)]
             idx = None
             for i in range(len(tl) - 1):
-                if tl[i]["ev"] == "cqe" and tl[i]["a"] == 0:
+                if (tl[i]["ev"] == "cqe" and tl[i]["a"] == 0) or tl[i]["ev"] == "ppop":
                     for j in range(i + 1, min(i + 6, len(tl))):
                         if tl[j]["ev"] == "free" and tl[j]["op"] == tl[i]["op"]:
                             idx = (i, j)
@@ -181,9 +207,9 @@ def run_iour(run, tier, focus, replay=None):
                 for o in bad[:i + 40]:
                     f.write(json.dumps(o) + "\n")
             v2, _ = validate(badp)
-            if not any(k in ("free-while-os-holds", "completion-touches-freed-op") for (_, k, _) in v2):
+            if not any(k in ("free-while-os-holds", "completion-touches-freed-op", "result-on-dead-op") for (_, k, _) in v2):
                 raise vlib.ToolError("negative control: a free moved before its completion was accepted")
-            run.note("negative_control", "free moved before its final completion is rejected by the monitor")
+            run.note(drv + "_negative_control", "free moved before its final completion is rejected by the monitor")
         run.assumptions += ["the kernel is the environment: completions are caused by the harness (pipe writes, connects, gates)",
                             "sequentially consistent single driver thread plus pool threads; byte-level heap effects are not observed, only ownership events"]
     finally:
@@ -191,4 +217,11 @@ def run_iour(run, tier, focus, replay=None):
 
 
 def run_all(run, tier, focus, replay=None):
-    run_iour(run, tier, focus, replay)
+    if replay:
+        obj = json.load(open(replay))
+        case = obj["replay"].get("case") or obj["replay"]
+        drv = "poll" if (case or {}).get("driver") == "poll" else "iour"
+        run_driver(run, tier, focus, drv, replay)
+        return
+    for drv in ("iour", "poll"):
+        run_driver(run, tier, focus, drv)
